@@ -765,7 +765,10 @@ func runE2E(it Item, r *core.Rand) {
 		inconclusive(it, "connect: "+err.Error())
 		return
 	}
-	type viol struct{ symptom, what string; w interface{} }
+	type viol struct {
+		symptom, what string
+		w             interface{}
+	}
 	var viols []viol
 	offA, offB := 0, 0
 	calls := 0
